@@ -11,6 +11,7 @@ import copy
 import io
 import itertools
 import json
+import os
 
 from mc import core
 from props.c02 import ref_parse
@@ -355,6 +356,15 @@ def check_case(env, rec, label, sidecar, spec, alpha, thorough):
                         continue
                     try:
                         got_df = list(TabularInput(df_in, sidecar=Sidecar(io.StringIO(js))).series_a)
+                        if how == "missing":
+                            # the same frame with categorical columns (missing cells stay missing values of the category)
+                            df_cat = df_in.copy()
+                            for c in cols_:
+                                df_cat[c] = df_cat[c].astype("category")
+                            got_cat = list(TabularInput(df_cat, sidecar=Sidecar(io.StringIO(js))).series_a)
+                            if got_cat != got_df:
+                                rec.violation("C06:dataframe-input-assembles-differently:categorical-columns", sidecar=js,
+                                              from_object_columns=got_df[:3], from_categorical_columns=got_cat[:3])
                     except Exception as e:
                         rec.violation(f"C06:dataframe-input-raises:{type(e).__name__}:{how}", sidecar=js, error=repr(e)[:200])
                         continue
@@ -523,12 +533,58 @@ def mapper_reset_check(ctx):
             rec.outcome("mapper-reset")
 
 
+LIST_SECOND = [{"tt": {"HED": {"go": "Green"}}}, {"tt": {"Description": "annotation switched off"}},
+               {"tt": {"HED": {"go": "(Green, {HED})", "stop": "Circle"}}, "val": {"Description": "no annotation"}},
+               {"val": {"HED": "ID/#"}}, {}]
+
+
+def sidecar_list_check(ctx):
+    """A sidecar given as a list of files: a later file replaces the columns it describes, entry by entry of the top level
+    (the same rows as from the single dictionary {**first, **second, ...})."""
+    import tempfile
+    import shutil
+    from hed.models.tabular_input import TabularInput
+    from hed.models.sidecar import Sidecar
+    rec = ctx.rec
+    firsts = [RESET_SIDECARS["refs"], RESET_SIDECARS["plain"]]
+    folder = tempfile.mkdtemp(dir="/dev/shm", prefix="verif-c06-")
+    try:
+        for first in firsts:
+            for second in LIST_SECOND:
+                for third in (None, LIST_SECOND[0]):
+                    dicts = [first, second] + ([third] if third is not None else [])
+                    paths = []
+                    for k, d in enumerate(dicts):
+                        paths.append(os.path.join(folder, f"s{k}.json"))
+                        with open(paths[-1], "w") as f:
+                            json.dump(d, f)
+                    merged = {}
+                    for d in dicts:
+                        merged.update(d)
+                    rec.n("evaluations")
+                    rec.n("transitions", len(dicts))
+                    rec.n("distinct_nontrivial")
+                    try:
+                        want = list(TabularInput(io.StringIO(RESET_TABLE), sidecar=Sidecar(io.StringIO(json.dumps(merged)))).series_a)
+                        got = list(TabularInput(io.StringIO(RESET_TABLE), sidecar=Sidecar(paths)).series_a)
+                    except Exception as e:
+                        rec.violation("C06:sidecar-list:raises:" + type(e).__name__, sidecars=dicts, error=repr(e)[:200])
+                        continue
+                    if got != want:
+                        rec.violation("C06:sidecar-list:later-file-does-not-replace-the-column-entry", sidecars=dicts,
+                                      expected=want, got=got)
+                    rec.outcome("sidecar-list")
+    finally:
+        shutil.rmtree(folder, ignore_errors=True)
+
+
 def run(ctx):
     ncases = sum(1 for _ in build_cases(ctx.thorough))
     ctx.rec.notes["bounds"] = {"sidecars": ncases, "reference_positions": REF_POSITIONS, "two_reference_templates": TWO_REFS,
                                "history_length": 3 if ctx.thorough else 2}
     ctx.parallel(worker, ctx.thorough, ctx.seed)
     mapper_reset_check(ctx)
+    sidecar_list_check(ctx)
     ctx.rec.counts["states"] = len(ctx.rec.states)
     ctx.rec.notes["observed_dtype_drift"] = ctx.rec.counts.get("observed_dtype_drift", 0)
 
